@@ -37,6 +37,9 @@ LEVEL_TEXT = (
 )
 LEVEL_NOTE = "Trusted: the model and the independent reader in this file, Hypothesis."
 TECHNIQUE = "rule-based state machine (model-based testing) + exhaustive exploration of short operation sequences"
+#: thorough tier: seed-dependent tasks are repeated under this many derived seeds (run.py); the listed task functions enumerate fixed domains
+THOROUGH_REPS = 4
+DETERMINISTIC_FNS = ('t_explore',)
 
 USERS = ["alice", "bøb", "da ve", "u" * 40, "#carol", " lead"]
 REALMS = ["r1", "réalm two"]
